@@ -1,5 +1,143 @@
 (* conv: n *)
 (* Runner for the util engine (CRC-32, XXH64, Bloom filter models and specifications). *)
+(* ---- C20: Bloom filter scenarios (same line format as harness/h_util.c do_bloom).  The model
+   (Util_ext.m_xxx) produces the result tokens; the specification (Util_ext.s_xxx) runs alongside and the
+   last token says whether its stored form and its answers agreed with the model: SPEC=agree or
+   SPEC=differs:<index of first op>. *)
+let le_hex_value (s : string) : n =
+  (* hex bytes in little-endian order -> number *)
+  let l = String.length s / 2 in
+  let b = Buffer.create (2 * l) in
+  for i = l - 1 downto 0 do Buffer.add_string b (String.sub s (2 * i) 2) done;
+  n_of_hex (Buffer.contents b)
+
+let bloom (ops : string list) : string =
+  let slots : Util_ext.filter option array = Array.make 4 None in
+  let spec : Util_ext.sbbf option array = Array.make 4 None in
+  let out = Buffer.create 256 in
+  let bad = ref (-1) in
+  let mark i = if !bad < 0 then bad := i in
+  let tok s = Buffer.add_char out ' '; Buffer.add_string out s in
+  let hexsz f = Printf.sprintf "%s/%s" (hex_of_n (Util_ext.m_num_bytes f)) (hex_of_n (Util_ext.m_num_blocks f)) in
+  let value ty payload : (Util_ext.value option) =
+    match ty with
+    | "i32" -> Some (Util_ext.s_I32 (le_hex_value payload))
+    | "i64" -> Some (Util_ext.s_I64 (le_hex_value payload))
+    | "f32" -> Some (Util_ext.s_F32 (le_hex_value payload))
+    | "f64" -> Some (Util_ext.s_F64 (le_hex_value payload))
+    | "ba" -> Some (Util_ext.s_Bytes (bytes_of_hex payload))
+    | _ -> None in
+  let m_insert f ty payload =
+    match ty with
+    | "i32" -> Some (Util_ext.m_insert_i32 f (Util_ext.m_sgn32 (le_hex_value payload)))
+    | "i64" -> Some (Util_ext.m_insert_i64 f (Util_ext.m_sgn64 (le_hex_value payload)))
+    | "f32" -> Some (Util_ext.m_insert_float f (le_hex_value payload))
+    | "f64" -> Some (Util_ext.m_insert_double f (le_hex_value payload))
+    | "ba" -> Some (Util_ext.m_insert_bytes f (bytes_of_hex payload))
+    | _ -> None in
+  let m_check f ty payload =
+    match ty with
+    | "i32" -> Some (Util_ext.m_check_i32 f (Util_ext.m_sgn32 (le_hex_value payload)))
+    | "i64" -> Some (Util_ext.m_check_i64 f (Util_ext.m_sgn64 (le_hex_value payload)))
+    | "f32" -> Some (Util_ext.m_check_float f (le_hex_value payload))
+    | "f64" -> Some (Util_ext.m_check_double f (le_hex_value payload))
+    | "ba" -> Some (Util_ext.m_check_bytes f (bytes_of_hex payload))
+    | _ -> None in
+  List.iteri (fun i op ->
+    let fld = String.split_on_char ':' op in
+    let o = List.hd fld in
+    let k = (match fld with _ :: ks :: _ -> (try int_of_string ks with _ -> -1) | _ -> 0) in
+    if k < 0 || k >= 4 then tok "?slot" else
+    match fld, slots.(k) with
+    | ["c"; _; sz], _ ->
+        let nn = n_of_hex sz in
+        (match Util_ext.m_create nn with
+         | Some f -> slots.(k) <- Some f; spec.(k) <- Some (Util_ext.s_new nn); tok ("c=" ^ hexsz f)
+         | None -> slots.(k) <- None; spec.(k) <- None; tok "c=NULL")
+    | ["r"; _; src], _ ->
+        let s = (try int_of_string src with _ -> -1) in
+        if s < 0 || s >= 4 || slots.(s) = None then tok "r=noslot" else
+        (match slots.(s) with
+         | Some g ->
+            (match Util_ext.m_write g (Util_ext.m_num_bytes g) with
+             | Util_ext.Ok bytes ->
+                (match Util_ext.m_read bytes with
+                 | Util_ext.Ok f -> slots.(k) <- Some f; spec.(k) <- spec.(s); tok "r=ok"
+                 | Util_ext.Err _ -> tok "r=err"
+                 | Util_ext.Fault _ -> tok "r=FAULT")
+             | Util_ext.Err _ -> tok "r=err"
+             | Util_ext.Fault _ -> tok "r=FAULT")
+         | None -> ())
+    | ["rb"; _; hx], _ ->
+        (match Util_ext.m_read (bytes_of_hex hx) with
+         | Util_ext.Ok f -> slots.(k) <- Some f; spec.(k) <- None; tok "rb=ok"
+         | Util_ext.Err _ -> tok "rb=err"
+         | Util_ext.Fault _ -> tok "rb=FAULT")
+    | _, None -> tok (o ^ "=noslot")
+    | ["i"; _; ty; payload], Some f ->
+        (match m_insert f ty payload with
+         | None -> tok "i=badtype"
+         | Some (Util_ext.Ok f') ->
+             slots.(k) <- Some f';
+             (match spec.(k), value ty payload with
+              | Some s, Some v -> spec.(k) <- Some (Util_ext.s_insert s v) | _ -> ());
+             tok "i"
+         | Some (Util_ext.Err _) -> tok "i=err"
+         | Some (Util_ext.Fault _) -> tok "i=FAULT")
+    | ["q"; _; ty; payload], Some f ->
+        (match m_check f ty payload with
+         | None -> tok "q=badtype"
+         | Some (Util_ext.Ok b) ->
+             (match spec.(k), value ty payload with
+              | Some s, Some v -> if Util_ext.s_check s v <> b then mark i | _ -> ());
+             tok (if b then "q=1" else "q=0")
+         | Some (Util_ext.Err _) -> tok "q=err"
+         | Some (Util_ext.Fault _) -> tok "q=FAULT")
+    | ["ih"; _; h], Some f ->
+        let hh = n_of_hex h in
+        (match Util_ext.m_insert_hash f hh with
+         | Util_ext.Ok f' ->
+             slots.(k) <- Some f';
+             (match spec.(k) with Some s -> spec.(k) <- Some (Util_ext.s_insert_hash s hh) | None -> ());
+             tok "ih"
+         | Util_ext.Err _ -> tok "ih=err"
+         | Util_ext.Fault _ -> tok "ih=FAULT")
+    | ["qh"; _; h], Some f ->
+        let hh = n_of_hex h in
+        (match Util_ext.m_check_hash f hh with
+         | Util_ext.Ok b ->
+             (match spec.(k) with Some s -> if Util_ext.s_check_hash s hh <> b then mark i | None -> ());
+             tok (if b then "qh=1" else "qh=0")
+         | Util_ext.Err _ -> tok "qh=err"
+         | Util_ext.Fault _ -> tok "qh=FAULT")
+    | ["m"; _; src], Some f ->
+        let s = (try int_of_string src with _ -> -1) in
+        if s < 0 || s >= 4 || slots.(s) = None then tok "m=noslot" else
+        (match slots.(s) with
+         | Some g ->
+            (match Util_ext.m_merge f g with
+             | Util_ext.Ok f' ->
+                 slots.(k) <- Some f';
+                 (match spec.(k), spec.(s) with
+                  | Some a, Some b -> spec.(k) <- Some (Util_ext.s_union a b)
+                  | _ -> spec.(k) <- None);
+                 tok "m=ok"
+             | Util_ext.Err _ -> tok "m=err"
+             | Util_ext.Fault _ -> tok "m=FAULT")
+         | None -> ())
+    | ["w"; _; cap], Some f ->
+        (match Util_ext.m_write f (n_of_int (int_of_string cap)) with
+         | Util_ext.Ok bytes -> tok ("w=ok:" ^ hex_of_bytes bytes)
+         | Util_ext.Err _ -> tok "w=err"
+         | Util_ext.Fault _ -> tok "w=FAULT")
+    | ["d"; _], Some f ->
+        (match spec.(k) with
+         | Some s -> if Util_ext.s_to_bytes s <> Util_ext.m_data f then mark i
+         | None -> ());
+        tok ("d=" ^ hexsz f ^ "/" ^ hex_of_bytes (Util_ext.m_data f))
+    | _ -> tok (o ^ "=badop")) ops;
+  "OK" ^ Buffer.contents out ^ (if !bad < 0 then " SPEC=agree" else Printf.sprintf " SPEC=differs:%d" !bad)
+
 let handle toks =
   match toks with
   | ["crc"; _al; data] ->
@@ -15,5 +153,11 @@ let handle toks =
   | ["pagecrc"; verify; has; stored; data] ->
       let b = Util_ext.page_crc_ok (verify = "1") (has = "1") (n_of_hex stored) (bytes_of_hex data) in
       if b then "OK accept" else "OK reject"
+  | ["xxh"; _al; seed; data] ->
+      (* extracted model of carquet_xxhash64 (bounds-checked reads) and extracted XXH64 specification *)
+      let bs = bytes_of_hex data and sd = n_of_hex seed in
+      let m = (match Util_ext.m_xxh64 bs sd with Some h -> hex_of_n h | None -> "FAULT") in
+      Printf.sprintf "OK %s %s" m (hex_of_n (Util_ext.s_xxh64 bs sd))
+  | "bloom" :: ops -> bloom ops
   | _ -> "RUNNER-ERROR unknown-op"
 let () = main_loop handle
